@@ -497,6 +497,14 @@ type connectError struct {
 func (s *clientSocket) onConnectError(_ *parser.PacketHeader, decode parser.Decode) {
 	s.destroy()
 
+	// The server refused the CONNECT packet: the socket is not waiting for a reply anymore.
+	// Otherwise `Connect` (and the open handler) would see a pending connection and would never send CONNECT again.
+	s.stateMu.Lock()
+	if s.state == clientSocketConnStateConnectPending {
+		s.state = clientSocketConnStateDisconnected
+	}
+	s.stateMu.Unlock()
+
 	var v *connectError
 	vt := reflect.TypeOf(v)
 	values, err := decode(vt)
